@@ -447,6 +447,7 @@ type Outcome struct {
 	Id   uint64 `json:"id,omitempty"`
 	Hash string `json:"hash,omitempty"`
 	Ev   J      `json:"ev,omitempty"` // the bridge event an external-chain action emitted
+	Aux  J      `json:"aux,omitempty"` // token list (with store orderings) after a governance change of the token infos
 }
 
 const blockOpTimeout = 20 * time.Second
